@@ -41,3 +41,31 @@ Proof.
       destruct eq; cbn [ir_holds cop_holds]; rewrite count_ids_where by apply subsetcard_tab_pos;
         rewrite subsetcard_len_ids; unfold deg_in in *; lia.
 Qed.
+
+(* ---------- T2 and uniqueness ---------- *)
+Lemma bip_wf_NoDup adj R : bip_wf adj R = true -> NoDup (bip_index adj).
+Proof.
+  unfold bip_wf. rewrite forallb_forall. intros H. apply NoDup_bip_rows. intros vs Hvs.
+  specialize (H vs Hvs). apply andb_true_iff in H as [H _]. apply strictly_increasing_spec, H.
+Qed.
+
+Theorem subsetcard_T2 adj R eq (obj : Z * Z -> bool) :
+  subsetcard_labelling adj R eq (filter obj (bip_index adj)) ->
+  exists a, irs_hold a (subsetcard_ir adj R eq) = true /\ subsetcard_sel a adj = filter obj (bip_index adj).
+Proof.
+  intros HP. exists (enc (subsetcard_tab adj) obj).
+  assert (E : subsetcard_sel (enc (subsetcard_tab adj) obj) adj = filter obj (bip_index adj)).
+  { unfold subsetcard_sel. rewrite sel_enc by apply number_NoDup_snd. unfold subsetcard_tab. now rewrite number_fst. }
+  split; [|exact E]. apply subsetcard_T1. now rewrite E.
+Qed.
+
+Theorem subsetcard_unique a b adj R : bip_wf adj R = true ->
+  (forall e, In e (subsetcard_sel a adj) <-> In e (subsetcard_sel b adj)) ->
+  forall v, 1 <= v <= subsetcard_numvar adj -> a v = b v.
+Proof.
+  intros Hwf H v Hv. unfold subsetcard_numvar in Hv.
+  destruct (number_surj (bip_index adj) 0 v ltac:(lia)) as [x Hx].
+  assert (NoDup (map fst (subsetcard_tab adj))) as Hnd
+    by (unfold subsetcard_tab; rewrite number_fst; now apply (bip_wf_NoDup adj R)).
+  apply (sel_inj a b (subsetcard_tab adj) Hnd H (x, v) Hx).
+Qed.
